@@ -16,19 +16,11 @@ Proof. vm_compute. reflexivity. Qed.
 Lemma calib_sem_counts : map sem_counts shipped_sem = [(20, 3, 8, 7); (10, 2, 1, 7)].
 Proof. vm_compute. reflexivity. Qed.
 
-(* ProtocolStack lies in the domain of C19_adaptor_roundtrip.  TestClassDiagram does not, for ONE reason: the association
-   named  Const: This should appear in constructor  -- an element NAME with a colon (the blob header id:name:type is cut at every
-   colon).  Without that one shape it lies in the domain. *)
-Definition without_shape (id : string) (S : sdiagram) : sdiagram :=
-  {| sd_id := sd_id S; sd_name := sd_name S; sd_shapes := filter (fun se => negb (String.eqb (elem_id (snd se)) id)) (sd_shapes S); sd_refd := sd_refd S |}.
-Definition colon_named (S : sdiagram) : list (string * string) :=
-  flat_map (fun se => match snd se with
-                      | EAssoc x => if no_char ":" (ostr (sx_name x)) then [] else [(sx_id x, ostr (sx_name x))]
-                      | _ => []
-                      end) (sd_shapes S).
+(* both lie in the domain of C19_adaptor_roundtrip (TestClassDiagram holds an association whose NAME has a colon:
+   Const: This should appear in constructor) *)
+Definition colon_named (S : sdiagram) : list string :=
+  flat_map (fun se => match snd se with EAssoc x => if no_char ":" (ostr (sx_name x)) then [] else [ostr (sx_name x)] | _ => [] end) (sd_shapes S).
 
 Lemma calib_sem_domain :
-  map sdiagram_ok shipped_sem = [false; true]
-  /\ map (fun S => map snd (colon_named S)) shipped_sem = [["Const: This should appear in constructor"]; []]
-  /\ map (fun S => sdiagram_ok (fold_right (fun kn S' => without_shape (fst kn) S') S (colon_named S))) shipped_sem = [true; true].
-Proof. split; [|split]; vm_compute; reflexivity. Qed.
+  map sdiagram_ok shipped_sem = [true; true] /\ map colon_named shipped_sem = [["Const: This should appear in constructor"]; []].
+Proof. split; vm_compute; reflexivity. Qed.
